@@ -904,3 +904,8 @@ mod tests {
             .unwrap();
     }
 }
+
+// verification hook (add-only, inert unless built by `cargo kani`, which sets --cfg kani)
+#[cfg(kani)]
+#[path = "/verif/kani/sig_config_harness.rs"]
+mod verif_kani;
